@@ -237,6 +237,43 @@ impl FixtureDatabase {
             .cloned()
     }
 
+    /// The definition of a fixture name that the namespace of `file_path` holds, among
+    /// `definitions` (all definitions of that name) and as far as `filter` lets it be seen.
+    /// Earlier same-named definitions in the file are dead (the name was rebound): when the
+    /// last one is filtered out - it is the fixture asking for its own name - the answer is
+    /// none, not an overwritten definition. Unless the earlier definition is a different
+    /// function that carries the same fixture name (`@pytest.fixture(name="client") def
+    /// client_override(client)` after `def client()`), or lives in another namespace (the
+    /// module-level fixture that a test class overrides under the same name): that one is
+    /// not overwritten, it is what the override requests.
+    pub(crate) fn live_definition_in_file<'a, F>(
+        &self,
+        definitions: &'a [FixtureDefinition],
+        file_path: &Path,
+        filter: &F,
+    ) -> Option<&'a FixtureDefinition>
+    where
+        F: Fn(&FixtureDefinition) -> bool,
+    {
+        let last_def = definitions
+            .iter()
+            .filter(|def| def.file_path == file_path)
+            .max_by_key(|def| def.line)?;
+        if filter(last_def) {
+            return Some(last_def);
+        }
+        let last_binding = self.binding_of(last_def);
+        definitions
+            .iter()
+            .filter(|def| {
+                def.file_path == file_path
+                    && def.line < last_def.line
+                    && filter(def)
+                    && self.binding_of(def) != last_binding
+            })
+            .max_by_key(|def| def.line)
+    }
+
     /// Order same-named definitions of one priority tier by where they are, so that the
     /// choice among them never depends on registration order. Paths are compared from the
     /// file name upwards, which keeps the order stable when the workspace is moved.
@@ -270,39 +307,12 @@ impl FixtureDatabase {
             fixture_name, file_path
         );
 
-        // Earlier same-named definitions in the file are dead (the name was rebound): when
-        // the last one is filtered out - it is the fixture asking for its own name - the
-        // lookup goes outward, not back to an overwritten definition.
-        let last_in_file = definitions
-            .iter()
-            .filter(|def| def.file_path == file_path)
-            .max_by_key(|def| def.line);
-        if let Some(last_def) = last_in_file.filter(|def| filter(def)) {
+        if let Some(def) = self.live_definition_in_file(&definitions, file_path, &filter) {
             info!(
                 "Found fixture {} in same file at line {}",
-                fixture_name, last_def.line
+                fixture_name, def.line
             );
-            return Some(last_def.clone());
-        }
-        // ... unless the earlier definition is a different function that carries the same
-        // fixture name (`@pytest.fixture(name="client") def client_override(client)` after
-        // `def client()`), or lives in another namespace (the module-level fixture that a
-        // test class overrides under the same name): that one is not overwritten, it is
-        // what the override requests.
-        if let Some(last_def) = last_in_file {
-            let last_binding = self.binding_of(last_def);
-            if let Some(earlier) = definitions
-                .iter()
-                .filter(|def| {
-                    def.file_path == file_path
-                        && def.line < last_def.line
-                        && filter(def)
-                        && self.binding_of(def) != last_binding
-                })
-                .max_by_key(|def| def.line)
-            {
-                return Some(earlier.clone());
-            }
+            return Some(def.clone());
         }
 
         // Priority 1b: Fixtures the file imports itself
